@@ -649,3 +649,46 @@ Proof.
   split; [apply second_decode; assumption|].
   intros H. apply andb_prop in H as [Hu Hp]. apply negb_true_iff in Hp. apply bit_for_bit; assumption.
 Qed.
+
+(* ------------------------------------------------------------------------------------------------ *)
+(* the inputs on which the unchanged code violates C08: concrete witnesses                            *)
+
+Fixpoint bits_of_string (s : string) : list bool :=
+  match s with
+  | EmptyString => []
+  | String a r => Ascii.eqb a (Ascii.Ascii true false false false true true false false) :: bits_of_string r
+  end.
+
+(* type 12, 78 bits: header and one character '@' -- decodes with text '', re-encodes to 72 bits, decodes with text None *)
+Definition witness_c08_empty_text : list bool :=
+  bits_of_string "001100" ++ repeat false 66 ++ repeat false 6.
+
+Lemma c08_witness_empty_text :
+  spec_variant witness_c08_empty_text = Some V12 /\ c08_length_ok V12 (len witness_c08_empty_text) = true /\
+  text_pad_zero V12 witness_c08_empty_text = true /\ c08_empty_text V12 witness_c08_empty_text = true /\
+  forall bfb, ~ c08_holds_for V12 witness_c08_empty_text bfb.
+Proof.
+  split; [vm_compute; reflexivity|]. split; [vm_compute; reflexivity|]. split; [vm_compute; reflexivity|].
+  split; [vm_compute; reflexivity|].
+  intros bfb (vs & b2 & H1 & H2 & H3 & _).
+  vm_compute in H1. injection H1 as <-. vm_compute in H2. injection H2 as <-. vm_compute in H3. discriminate.
+Qed.
+
+(* type 21, 360 bits, every field re-encodes to itself: 356 bits come back (the 4 padding bits after the 88-bit name
+   extension are not re-emitted) *)
+Definition witness_c08_padding : list bool :=
+  bits_of_string "010101" ++ repeat false 37 ++ concat (repeat (bits_of_string "000001") 20) ++ repeat false 109
+  ++ concat (repeat (bits_of_string "000001") 14) ++ repeat false 4.
+
+Lemma c08_witness_padding :
+  spec_variant witness_c08_padding = Some V21 /\ c08_length_ok V21 (len witness_c08_padding) = true /\
+  text_pad_zero V21 witness_c08_padding = true /\ raw_unnormalised V21 witness_c08_padding = true /\
+  c08_empty_text V21 witness_c08_padding = false /\ c08_pad_dropped V21 witness_c08_padding = true /\
+  ~ c08_holds_for V21 witness_c08_padding true.
+Proof.
+  split; [vm_compute; reflexivity|]. split; [vm_compute; reflexivity|]. split; [vm_compute; reflexivity|].
+  split; [vm_compute; reflexivity|]. split; [vm_compute; reflexivity|]. split; [vm_compute; reflexivity|].
+  intros (vs & b2 & H1 & H2 & _ & H4).
+  vm_compute in H1. injection H1 as <-. vm_compute in H2. injection H2 as <-.
+  specialize (H4 eq_refl). apply (f_equal (@List.length bool)) in H4. vm_compute in H4. discriminate.
+Qed.
